@@ -142,11 +142,13 @@ pub fn lex(source: &str, source_filename: &str) -> Vec<LexedToken>
 {
 	let mut tokens = Vec::new();
 	let mut offset = 0;
-	for (i, line) in source.lines().enumerate()
+	for (i, full_line) in source.split_inclusive('\n').enumerate()
 	{
 		// Syntax should remain such that each line can be lexed independently.
+		let line = strip_line_terminator(full_line);
 		lex_line(line, source_filename, offset, 1 + i, &mut tokens);
-		offset += line.chars().count() + 1;
+		// The line terminator is one ("\n") or two ("\r\n") characters long.
+		offset += full_line.chars().count();
 	}
 	if source.len() == 0
 	{
@@ -162,6 +164,16 @@ pub fn lex(source: &str, source_filename: &str) -> Vec<LexedToken>
 		tokens.push(placeholder);
 	}
 	tokens
+}
+
+/// Strip the line terminator in the same way as `str::lines()`.
+fn strip_line_terminator(full_line: &str) -> &str
+{
+	match full_line.strip_suffix('\n')
+	{
+		Some(line) => line.strip_suffix('\r').unwrap_or(line),
+		None => full_line,
+	}
 }
 
 fn lex_line(
